@@ -47,11 +47,14 @@ def mutable_values(tier):
     # tuples / namedtuples are only shallowly immutable
     tup = st.tuples(ints, lst).map(lambda t: ["tuple", [t[0], t[1]]])
     ntp = st.tuples(lst, ints).map(lambda t: ["call", "NT", [["a", t[0]], ["b", t[1]]]])
-    return st.one_of(lst, lst, nested, dct, sets, pt, ap, tup, ntp)
+    # a pydantic model: libraries with a copy API of their own (model_copy is shallow by default)
+    pm = st.tuples(ints, lst).map(lambda t: ["call", "PModel", [["n", t[0]], ["tags", t[1]]]])
+    return st.one_of(lst, lst, nested, dct, sets, pt, ap, tup, ntp, pm)
 
 
 MUTS = ["append", "clear", "setitem0", "nested_append", "dict_set", "dict_clear", "set_add", "attr_x",
-        "attr_y_append", "attr_b_append", "tuple_inner_append", "nt_inner_append", "tuple_inner_append"]
+        "attr_y_append", "attr_b_append", "tuple_inner_append", "nt_inner_append", "tuple_inner_append",
+        "pm_tags_append"]
 
 
 def apply_mut(obj, mut, n):
@@ -89,6 +92,9 @@ def apply_mut(obj, mut, n):
     if mut == "nt_inner_append" and type(obj).__name__ == "NT" and isinstance(obj.a, list):
         obj.a.append(n)
         return "{v}.a.append(%d)" % n
+    if mut == "pm_tags_append" and type(obj).__name__ == "PModel" and isinstance(obj.tags, list):
+        obj.tags.append(n)
+        return "{v}.tags.append(%d)" % n
     if mut == "attr_b_append" and type(obj).__name__ == "APoint" and isinstance(obj.b, list):
         obj.b.append(n)
         return "{v}.b.append(%d)" % n
